@@ -35,7 +35,7 @@ Fixpoint mem_byte (c : byte) (l : bytes) : bool :=
   | d :: l' => N.eqb c d || mem_byte c l'
   end.
 
-(* [a-zA-Z0-9+?"'&,/_:.~()}{%=@\x5B\x5D!\x80-\xFF-]  — the "plain text" class of the scanner
+(* [a-zA-Z0-9+?DQUOTE'&,/_:.~()}{%=@\x5B\x5D!\x80-\xFF-] (DQUOTE = byte 34): the plain-text class of the scanner
    (bit 128 of yybm[] in depfile_parser.cc). *)
 Definition plain_punct : bytes :=
   [43; 63; 34; 39; 38; 44; 47; 95; 58; 46; 126; 40; 41; 125; 123; 37; 61; 64; 91; 93; 33; 45].
@@ -210,8 +210,8 @@ Fixpoint tok_idx (fuel : nat) (buf fn : bytes) (pos hi : nat)
   | O => None
   | S f =>
       match step buf with
-      | SCont e k lk => tok_idx f (skipn k buf) (fn ++ e) (pos + k) (Nat.max hi (pos + lk))
-      | SBrk e k lk nl => Some (fn ++ e, skipn k buf, nl, pos + k, Nat.max hi (pos + lk))
+      | SCont e k lk => tok_idx f (skipn k buf) (fn ++ e) (Nat.add pos k) (Nat.max hi (Nat.add pos lk))
+      | SBrk e k lk nl => Some (fn ++ e, skipn k buf, nl, Nat.add pos k, Nat.max hi (Nat.add pos lk))
       end
   end.
 
